@@ -1193,7 +1193,11 @@ def c15_combine(R):
     )
     sp2 = tree.func(MC, "ModelCacheMixin.split")
     R.check(
-        util.Frags(sp2).all("results = super().split()", "for r in results:\n    r._models = {m.filter(r.variables) for m in self._models}", "return results"),
+        # every model that reaches a part is filtered to the part's variables (whether it replaces or is added to - see
+        # C15.parts - what the part holds)
+        any(isinstance(g, (ast.SetComp, ast.GeneratorExp, ast.ListComp)) and isinstance(g.elt, ast.Call) and isinstance(g.elt.func, ast.Attribute) and g.elt.func.attr == "filter"
+            and g.elt.args and ast.unparse(g.elt.args[0]).endswith(".variables") and "_models" in ast.unparse(g.generators[0].iter) for g in ast.walk(sp2))
+        and not any(isinstance(st, (ast.Assign, ast.AugAssign)) and "_models" in ast.unparse(st.targets[0] if isinstance(st, ast.Assign) else st.target) and not any(isinstance(c, ast.Call) and isinstance(c.func, ast.Attribute) and c.func.attr == "filter" for c in ast.walk(st.value)) for st in ast.walk(sp2)),
         mm,
         sp2,
         "split(): each part inherits the cached models restricted to its own variables",
